@@ -226,4 +226,107 @@ theorem ClockInv.foldl {rate : List Nat} (l : List Item) : ∀ (j : Mon), ClockI
     intro j hi h
     exact ih (j.step it) (hi.step it (foldl_ok_mono l _ h)) h
 
+/-! ### once a subscription has ended, the monitor never revives it -/
+
+def Dead (k : Nat) (j : Mon) : Prop := ∃ s, j.subs[k]? = some s ∧ s.alive = false
+
+theorem dead_modify (k k' : Nat) (f : SubMon → SubMon) (hf : ∀ s, s.alive = false → (f s).alive = false)
+    (subs : List SubMon) (h : ∃ s, subs[k]? = some s ∧ s.alive = false) :
+    ∃ s, (subs.modify k' f)[k]? = some s ∧ s.alive = false := by
+  obtain ⟨s, hs, ha⟩ := h
+  rw [List.getElem?_modify, hs]
+  by_cases e : k' = k
+  · exact ⟨f s, by simp [e], hf s ha⟩
+  · exact ⟨s, by simp [e], ha⟩
+
+theorem dead_append (k : Nat) (x : SubMon) (subs : List SubMon) (h : ∃ s, subs[k]? = some s ∧ s.alive = false) :
+    ∃ s, (subs ++ [x])[k]? = some s ∧ s.alive = false := by
+  obtain ⟨s, hs, ha⟩ := h
+  exact ⟨s, by rw [List.getElem?_append_left (List.getElem?_eq_some_iff.mp hs).1]; exact hs, ha⟩
+
+theorem dead_map (k : Nat) (f : SubMon → SubMon) (hf : ∀ s, (f s).alive = s.alive)
+    (subs : List SubMon) (h : ∃ s, subs[k]? = some s ∧ s.alive = false) :
+    ∃ s, (subs.map f)[k]? = some s ∧ s.alive = false := by
+  obtain ⟨s, hs, ha⟩ := h
+  exact ⟨f s, by rw [List.getElem?_map, hs]; rfl, by rw [hf]; exact ha⟩
+
+theorem Dead.onResp {k : Nat} {j : Mon} (h : Dead k j) (o : Op) (st : Nat) (sid : Option Nat) (g : Option Int) :
+    Dead k (j.onResp o st sid g) := by
+  unfold Dead at h ⊢
+  unfold Mon.onResp
+  repeat' split
+  all_goals (first
+    | exact h
+    | exact dead_append k _ _ h
+    | (refine dead_modify k _ _ ?_ _ h; intro s ha; first | exact ha | rfl))
+
+theorem Dead.assign {k : Nat} {j : Mon} (h : Dead k j) (x : Nat) (v : Val) : Dead k (j.assign x v) := by
+  unfold Mon.assign
+  repeat' split
+  all_goals exact h
+
+theorem Dead.assignMany {k : Nat} (l : List (Nat × Val)) : ∀ {j : Mon}, Dead k j →
+    Dead k (l.foldl (fun j p => j.assign p.1 p.2) j) := by
+  induction l with
+  | nil => intro j h; exact h
+  | cons p l ih => intro j h; exact ih (h.assign p.1 p.2)
+
+/-- one accepted step keeps an ended subscription ended; in particular the step is not a NOTIFY to it -/
+theorem Dead.step {k : Nat} {j : Mon} (h : Dead k j) (it : Item) (hok : (j.step it).ok = true) :
+    Dead k (j.step it) ∧ ∀ seq t url body, it ≠ .obs (.notify k seq t url body) := by
+  cases it with
+  | op o =>
+    have hc : Dead k j.close := dead_map k (fun s => { s with credit := 0 }) (fun _ => rfl) _ h
+    refine ⟨?_, fun _ _ _ _ e => by cases e⟩
+    cases o with
+    | adv dt => exact hc
+    | set x v => exact hc.assign x v
+    | setMany l => exact Dead.assignMany l hc
+    | subscribe sid cb to => exact hc
+    | unsubscribe sid => exact hc
+    | done n => exact hc
+    | fail n => exact hc
+    | setKey sid n => exact dead_modify k sid (fun s => { s with nextSeq := n }) (fun _ ha => ha) _ hc
+  | obs o =>
+    cases o with
+    | resp st sid g =>
+      refine ⟨?_, fun _ _ _ _ e => by cases e⟩
+      show Dead k (j.onObs (.resp st sid g))
+      simp only [Mon.onObs]
+      cases ha : j.awaiting with
+      | none => exact h
+      | some o => exact h.onResp o st sid g
+    | notify sid seq t url body =>
+      have h' : (j.onObs (.notify sid seq t url body)).ok = true := hok
+      simp only [Mon.onObs] at h'
+      by_cases e : sid = k
+      · subst e
+        obtain ⟨s, hs, ha⟩ := h
+        rw [hs] at h'
+        simp [ha] at h'
+      · refine ⟨?_, fun _ _ _ _ e' => by cases e'; exact e rfl⟩
+        show Dead k (j.onObs (.notify sid seq t url body))
+        simp only [Mon.onObs]
+        cases hs : j.subs[sid]? with
+        | none => exact h
+        | some s =>
+          obtain ⟨s0, hs0, ha0⟩ := h
+          exact ⟨s0, by show (j.subs.set sid _)[k]? = _; rw [List.getElem?_set_ne e]; exact hs0, ha0⟩
+    | trig x t =>
+      refine ⟨?_, fun _ _ _ _ e => by cases e⟩
+      exact dead_map k (fun s => { s with credit := s.credit + 1 }) (fun _ => rfl) _ h
+    | ret sid => exact ⟨h, fun _ _ _ _ e => by cases e⟩
+    | exc sid => exact ⟨h, fun _ _ _ _ e => by cases e⟩
+
+theorem Dead.foldl {k : Nat} (l : List Item) : ∀ (j : Mon), Dead k j → (l.foldl Mon.step j).ok = true →
+    ∀ seq t url body, Item.obs (.notify k seq t url body) ∉ l := by
+  induction l with
+  | nil => intro j _ _ seq t url body hm; cases hm
+  | cons it l ih =>
+    intro j hd hok seq t url body hm
+    obtain ⟨hd', hne⟩ := hd.step it (foldl_ok_mono l _ hok)
+    rcases List.mem_cons.mp hm with e | hm
+    · exact hne seq t url body e.symm
+    · exact ih (j.step it) hd' hok seq t url body hm
+
 end Upnp.C15
